@@ -327,7 +327,13 @@ fn canon(p: &Path) -> Option<String> {
 }
 
 fn git_answer(start: &Path, ceil: Option<&str>) -> GitAns {
+    git_answer_fs(start, ceil, false)
+}
+fn git_answer_fs(start: &Path, ceil: Option<&str>, cross_fs: bool) -> GitAns {
     let mut c = git::cmd(start);
+    if cross_fs {
+        c.env("GIT_DISCOVERY_ACROSS_FILESYSTEM", "1");
+    }
     if let Some(ceil) = ceil {
         c.env("GIT_CEILING_DIRECTORIES", ceil);
     }
@@ -498,7 +504,13 @@ fn kinds_alphabet(thorough: bool) -> Vec<Kind> {
 
 fn generate(thorough: bool, max_depth: usize, emit: &mut dyn FnMut(Case)) {
     let alpha = kinds_alphabet(thorough);
+    let small = kinds_alphabet(false);
     vkit::enumerate::seqs(&alpha, 0, max_depth, |kinds| {
+        // quick: the small alphabet to depth 2; thorough: the full alphabet to depth 2 and the small one to depth 3
+        let tiny = [Plain, Repo, Bare, GitFile];
+        if kinds.len() > 2 && !(if thorough { kinds.iter().all(|k| small.contains(k)) } else { kinds.iter().all(|k| tiny.contains(k)) }) {
+            return;
+        }
         let starts = starts_of(kinds);
         for start in &starts {
             for ceil in ceilings_for(start, kinds.len(), thorough) {
@@ -537,6 +549,17 @@ fn join(root: &Path, rel: &str) -> PathBuf {
 }
 
 fn evaluate(c: &Case) -> Verdict {
+    let v = evaluate_inner(c);
+    if let (Err(m), Ok(path)) = (&v, std::env::var("VERIF_C50_DUMP")) {
+        use std::io::Write;
+        if let Ok(mut f) = std::fs::OpenOptions::new().create(true).append(true).open(path) {
+            let _ = writeln!(f, "{}\t{}", serde_json::to_string(c).unwrap(), m);
+        }
+    }
+    v
+}
+
+fn evaluate_inner(c: &Case) -> Verdict {
     let cell = layout(&c.layout);
     let lay = cell.get().unwrap();
     if !lay.starts.contains(&c.start) {
@@ -572,12 +595,19 @@ fn evaluate(c: &Case) -> Verdict {
         }
     };
     let req = Req { cwd: cwd.to_str().unwrap().to_string(), dir, ceil: ceil.clone(), cross_fs: false };
-    let got = match ask_gix(&req) {
+    judge(&want, &req, &lay.worktree_of)
+}
+
+/// Ask gix-discover and compare with git's answer.
+fn judge(want: &GitAns, req: &Req, worktree_of: &HashMap<String, String>) -> Verdict {
+    let cwd = PathBuf::from(&req.cwd);
+    let ceil = &req.ceil;
+    let got = match ask_gix(req) {
         Ok(r) => r,
         Err(m) => return bad("abort", format!("{m}; request {req:?}")),
     };
 
-    match (&want, &got) {
+    match (want, &got) {
         (_, Resp::Panic(m)) => bad("panic", format!("upwards_opts panicked: {m}; request {req:?}")),
         (_, Resp::Harness(m)) => vkit::machinery!("{m}"),
         (GitAns::Fatal(m), _) => {
@@ -596,8 +626,16 @@ fn evaluate(c: &Case) -> Verdict {
             "NoGitRepositoryWithinCeiling" => ok("none/stopped-by-ceiling"),
             _ => bad("gix-error", format!("git: no repository; gix failed differently: {variant}: {text}; request {req:?}")),
         },
-        (GitAns::NotFound, Resp::Found { git_dir, .. }) => {
-            bad("found-but-git-finds-none", format!("git finds no repository (ceiling {ceil:?}), gix found git_dir={git_dir:?}; request {req:?}"))
+        (GitAns::NotFound, Resp::Found { git_dir, work_dir, .. }) => {
+            // Was the repository found by examining a ceiling directory itself (git never enters a ceiling directory)?
+            let resolve = |p: &str| canon(&if Path::new(p).is_absolute() { PathBuf::from(p) } else { cwd.join(p) });
+            let g = resolve(git_dir);
+            let w = work_dir.as_deref().and_then(resolve);
+            let on_ceiling = ceil.as_deref().unwrap_or("").split(':').filter(|e| e.starts_with('/')).filter_map(|e| canon(Path::new(e))).any(|e| {
+                Some(&e) == g.as_ref() || Some(&e) == w.as_ref()
+            });
+            let class = if on_ceiling { "ceiling-dir-itself-searched" } else { "found-but-git-finds-none" };
+            bad(class, format!("git finds no repository (ceiling {ceil:?}), gix found git_dir={git_dir:?} work_dir={work_dir:?}; request {req:?}"))
         }
         (GitAns::Found { git_dir, .. }, Resp::Err { variant, text }) => {
             bad("missed", format!("git finds {git_dir}, gix: {variant}: {text}; request {req:?}"))
@@ -625,9 +663,12 @@ fn evaluate(c: &Case) -> Verdict {
             // then the worktree that belongs to the git dir is the one git reports from inside that worktree.
             let expect_w = match toplevel {
                 Some(t) => Some(t.clone()),
-                None => lay.worktree_of.get(git_dir).cloned(),
+                None => worktree_of.get(git_dir).cloned(),
             };
-            if w_abs != expect_w {
+            // git itself names no worktree from inside a git dir: `None` is then also an agreeing answer (a separate git dir
+            // has no pointer back to its worktree)
+            let agrees = w_abs == expect_w || (toplevel.is_none() && w_abs.is_none());
+            if !agrees {
                 return bad(
                     "other-worktree",
                     format!("git dir {git_dir}: git's worktree {expect_w:?} (bare={bare}, inside_git_dir={inside_git_dir}), gix work_dir {w_abs:?} (returned {w:?}, kind {kind}); request {req:?}"),
@@ -640,9 +681,132 @@ fn evaluate(c: &Case) -> Verdict {
     }
 }
 
+
+// ------------------------------------------------------------------------------------------------ filesystem boundary
+
+#[derive(Serialize, Deserialize, Hash, Clone, Debug)]
+struct FsCase {
+    /// start directory relative to the fixture root
+    start: String,
+    form: Form,
+    /// for `Form::Up`: cwd relative to the fixture root
+    cwd: String,
+    /// GIT_DISCOVERY_ACROSS_FILESYSTEM=1 / Options::cross_fs
+    cross_fs: bool,
+    ceil: Option<String>,
+}
+
+struct Mount(PathBuf);
+impl Drop for Mount {
+    fn drop(&mut self) {
+        let _ = Command::new("umount").arg("-l").arg(&self.0).stderr(Stdio::null()).status();
+    }
+}
+
+/// Unmount what an earlier, killed run may have left behind (mount points below scratch directories of dead processes).
+fn unmount_stale() {
+    let Ok(mounts) = std::fs::read_to_string("/proc/mounts") else { return };
+    for line in mounts.lines() {
+        let Some(mp) = line.split(' ').nth(1) else { continue };
+        if !mp.contains("/c50-fsb") {
+            continue;
+        }
+        let pid = mp.split('/').find_map(|c| c.strip_prefix("verif.")).and_then(|p| p.parse::<u32>().ok());
+        if let Some(pid) = pid {
+            if pid != std::process::id() && !Path::new(&format!("/proc/{pid}")).exists() {
+                let _ = Command::new("umount").arg("-l").arg(mp).stderr(Stdio::null()).status();
+            }
+        }
+    }
+}
+
+const FS_STARTS: &[&str] = &["outer", "outer/leaf", "outer/mnt", "outer/mnt/plain", "outer/mnt/plain/leaf", "outer/mnt/inner", "outer/mnt/inner/leaf", "outer/mnt/inner/.git"];
+
+/// `<root>/outer` is a repository, `<root>/outer/mnt` is the mount point of another filesystem that contains a plain
+/// directory and a repository `inner`. `None` if this process may not mount.
+fn build_fs_fixture() -> Option<(PathBuf, Mount, HashMap<String, String>)> {
+    unmount_stale();
+    let t = templates();
+    let root = scratch::Dir::new("c50-fsb").keep();
+    let outer = root.join("outer");
+    mkdir(&outer.join("leaf"));
+    copy(&t.repo.join(".git"), &outer.join(".git"));
+    let mnt = outer.join("mnt");
+    mkdir(&mnt);
+    let st = Command::new("mount").args(["-t", "tmpfs", "-o", "size=8m", "tmpfs"]).arg(&mnt).stderr(Stdio::null()).stdout(Stdio::null()).status();
+    if !matches!(st, Ok(s) if s.success()) {
+        return None;
+    }
+    let guard = Mount(mnt.clone());
+    use std::os::unix::fs::MetadataExt;
+    let dev = |p: &Path| std::fs::metadata(p).map(|m| m.dev()).unwrap_or(0);
+    if dev(&mnt) == dev(&outer) {
+        return None;
+    }
+    mkdir(&mnt.join("plain/leaf"));
+    mkdir(&mnt.join("inner/leaf"));
+    copy(&t.repo.join(".git"), &mnt.join("inner/.git"));
+    let mut worktree_of = HashMap::new();
+    for s in FS_STARTS {
+        if let GitAns::Found { git_dir, toplevel: Some(t), .. } = git_answer_fs(&root.join(s), None, true) {
+            worktree_of.insert(git_dir, t);
+        }
+    }
+    Some((root, guard, worktree_of))
+}
+
+fn fs_generate(emit: &mut dyn FnMut(FsCase)) {
+    for start in FS_STARTS {
+        for cross_fs in [false, true] {
+            let mut ceils = vec![None];
+            ceils.extend(ancestors_or_self(start).into_iter().map(Some));
+            for ceil in ceils {
+                for form in [Form::Abs, Form::Dot, Form::Rel] {
+                    emit(FsCase { start: start.to_string(), form, cwd: String::new(), cross_fs, ceil: ceil.clone() });
+                }
+                for other in FS_STARTS {
+                    if is_below(other, start).is_some() {
+                        emit(FsCase { start: start.to_string(), form: Form::Up, cwd: other.to_string(), cross_fs, ceil: ceil.clone() });
+                    }
+                }
+            }
+        }
+    }
+}
+
+fn fs_evaluate(c: &FsCase, root: &Path, worktree_of: &HashMap<String, String>) -> Verdict {
+    let start_abs = join(root, &c.start);
+    let ceil = c.ceil.as_ref().map(|s| s.replace("$R", root.to_str().unwrap()));
+    let want = git_answer_fs(&start_abs, ceil.as_deref(), c.cross_fs);
+    ORACLE_CALLS.fetch_add(1, std::sync::atomic::Ordering::Relaxed);
+    let (cwd, dir) = match c.form {
+        Form::Abs => (root.to_path_buf(), start_abs.to_str().unwrap().to_string()),
+        Form::Dot => (start_abs.clone(), ".".to_string()),
+        Form::Rel => (root.to_path_buf(), c.start.clone()),
+        Form::Up => {
+            let n = is_below(&c.cwd, &c.start).unwrap_or_else(|| vkit::machinery!("cwd {:?} not below start {:?}", c.cwd, c.start));
+            (join(root, &c.cwd), vec![".."; n].join("/"))
+        }
+        _ => vkit::machinery!("form not used in fs-boundary"),
+    };
+    let req = Req { cwd: cwd.to_str().unwrap().to_string(), dir, ceil, cross_fs: c.cross_fs };
+    let crosses = c.start.starts_with("outer/mnt") && !c.start.starts_with("outer/mnt/inner");
+    match judge(&want, &req, worktree_of) {
+        Ok(p) => {
+            let tag = match (crosses, c.cross_fs) {
+                (true, true) => "fs:crossed/",
+                (true, false) => "fs:stopped-at-boundary/",
+                (false, _) => "fs:no-boundary-above/",
+            };
+            Ok(vkit::Pass { class: format!("{tag}{}", p.class).into(), nontrivial: p.nontrivial || crosses })
+        }
+        Err(m) => Err(m),
+    }
+}
+
 pub fn run(run: &'static Run) {
     let thorough = !run.quick();
-    let max_depth = 3;
+    let max_depth: usize = std::env::var("VERIF_C50_DEPTH").ok().and_then(|s| s.parse().ok()).unwrap_or(3);
     run.rule(format!(
         "layout = chain of <= {max_depth} nested directories, each of kind {:?} (plus side directories _store, _main, _mainbare.git and a plain leaf); \
          start = every directory of the layout incl. directories inside git dirs and private worktree git dirs; \
@@ -660,9 +824,37 @@ pub fn run(run: &'static Run) {
     run.assume("start directories are spelled by their physical path (git always starts from getcwd()); starts reached through symlinks are out of scope");
     run.assume("layouts whose `.git` file is malformed make git abort with a fatal error instead of naming a repository: counted as trivial (no comparison)");
     run.assume("bare-ness / core.worktree from the repository configuration is not visible to gix-discover (documented: 'the git-config ultimately decides'); layouts use default configuration only");
-    run.budget_secs(run.pick(35.0, 560.0));
+    run.budget_secs(std::env::var("VERIF_BUDGET").ok().and_then(|s| s.parse().ok()).unwrap_or(run.pick(35.0, 560.0)));
 
-    run.sub_with("upwards", vkit::Opts::default().chunk(4096), |emit| generate(thorough, max_depth, emit), evaluate);
+    {
+        let (mut cases, mut keys, mut layouts) = (0u64, std::collections::HashSet::new(), std::collections::HashSet::new());
+        generate(thorough, max_depth, &mut |c: Case| {
+            cases += 1;
+            keys.insert(vkit::hash_of(&(&c.layout, &c.start, &c.ceil)));
+            layouts.insert(c.layout.clone());
+        });
+        run.cov("cases_planned", cases);
+        run.cov("oracle_questions_planned", keys.len());
+        run.cov("layouts_planned", layouts.len());
+        if std::env::var("VERIF_C50_COUNT").is_ok() {
+            eprintln!("cases {cases} oracle {} layouts {}", keys.len(), layouts.len());
+            return;
+        }
+    }
+    run.sub_with("upwards", vkit::Opts::default().chunk(1024), |emit| generate(thorough, max_depth, emit), evaluate);
+
+    // filesystem boundary: needs the privilege to mount a tmpfs; skipped (and said so) otherwise
+    if let Some((root, guard, worktree_of)) = build_fs_fixture() {
+        run.rule("fs-boundary: repository `outer`, a tmpfs mounted at outer/mnt holding a plain directory and a repository `inner`; every start directory x spelling (abs, '.', relative, '../'*n) x cross_fs/GIT_DISCOVERY_ACROSS_FILESYSTEM in {off,on} x ceiling in {unset, each ancestor-or-self}");
+        run.sub_with("fs-boundary", vkit::Opts::default().chunk(256), fs_generate, |c: &FsCase| fs_evaluate(c, &root, &worktree_of));
+        drop(guard);
+        if !run.is_replay() {
+            run.require("a search was stopped at the filesystem boundary", run.outcome_count("fs:stopped-at-boundary/none/no-repo-above") > 0);
+            run.require("a search crossed the filesystem boundary when allowed", run.outcome_count("fs:crossed/found/worktree/from-worktree") > 0);
+        }
+    } else {
+        run.assume("fs-boundary sub-check skipped: this process cannot mount a tmpfs (filesystem boundaries not covered in this run)");
+    }
 
     run.cov("oracle_calls_git", ORACLE_CALLS.load(std::sync::atomic::Ordering::Relaxed));
     run.cov("layouts", LAYOUTS.lock().unwrap().as_ref().map(|m| m.len()).unwrap_or(0));
